@@ -42,7 +42,8 @@ Step ==
   /\ l' = l + 1
   /\ IF Line.act.a = "reset" THEN Reset
      ELSE IF Line.act.a = "end" THEN
-          /\ M' = MonStep(M, S.prog, S.n, [t |-> 0, inv |-> FALSE, fin |-> FALSE, out |-> Line.obs.out, mon |-> Line.obs.mon,
+          \* a run that was given up after a timeout (hung) allows no conclusion: the end clauses are skipped
+          /\ M' = IF Line.act.hung THEN M ELSE MonStep(M, S.prog, S.n, [t |-> 0, inv |-> FALSE, fin |-> FALSE, out |-> Line.obs.out, mon |-> Line.obs.mon,
                                           end |-> TRUE, dead |-> Line.act.dead, panic |-> Line.obs.panic])
           /\ last' = [a |-> "end"]
           /\ UNCHANGED <<S, SS, div>>
